@@ -55,7 +55,7 @@ def nontrivial(c, r):
 
 # ---------------------------------------------------------------- mutation search
 
-MUT_OPS = ["del", "dup", "swap", "trunc", "unbalance", "nonascii", "deep"]
+MUT_OPS = ["del", "dup", "swap", "trunc", "unbalance", "nonascii", "deep", "relines", "rerandom"]
 WIDTHS = ["20", "40", "100", "200"]
 TABS = ["1", "4", "8"]
 
@@ -64,6 +64,8 @@ def mutate(toks, op, rnd):
     sig = [i for i, (k, t) in enumerate(toks) if k not in ("ws", "lc", "bc")]
     if not sig:
         return None
+    if op in ("relines", "rerandom"):
+        return pool.relayout(toks, "lines" if op == "relines" else "random", rnd)      # the same program, laid out differently
     t = [list(x) for x in toks]
     i = rnd.choice(sig)
     if op == "del":
@@ -164,7 +166,7 @@ def hkey(s):
 def search(rep, tier, seed):
     P = pool.load()
     MOD = 10
-    K = 6                    # mutants per program
+    K = 8                    # mutants per program
     lexed = common.run_vh_pool("lex", [{"text": p["text"]} for p in P], per_case_timeout=20)
     cases, meta = [], []
     for p, toks in zip(P, lexed):
@@ -221,7 +223,7 @@ def search(rep, tier, seed):
     rep.coverage["margin_sweep_runs"] = len(cases) - n_mut
     rep.coverage["margin_sweep_rule"] = "%d expression forms x %d binding patterns x {let statement, call argument in a nested block} and %d item forms x {top level, two modules deep}, each at every max_width 20..130 (quick: every third width and half of the combinations, selected by the seed), edition 2024" % (len(SWEEP_EXPRS), len(SWEEP_PATS), len(SWEEP_ITEMS))
     rep.coverage["mutant_outcomes"] = outcome
-    rep.coverage["search_rule"] = "pool programs x (original + %d token-level mutants: delete / duplicate / swap / truncate / unbalance a delimiter / insert non-ASCII / wrap in 4..12 parentheses, deterministic per program) x rotating max_width %s x tab_spaces %s x hard_tabs, error_on_line_overflow and error_on_unformatted on (so reports are rendered); thorough: all, quick: the 1/%d slice selected by the seed; in-process in worker processes, 12 s per case; a panic is keyed by its source location" % (K, WIDTHS, TABS, MOD)
+    rep.coverage["search_rule"] = "pool programs x (original + %d token-level mutants: delete / duplicate / swap / truncate / unbalance a delimiter / insert non-ASCII / wrap in 4..12 parentheses, re-layout with every gap a newline / random gaps; deterministic per program) x rotating max_width %s x tab_spaces %s x hard_tabs, error_on_line_overflow and error_on_unformatted on (so reports are rendered); thorough: all, quick: the 1/%d slice selected by the seed; in-process in worker processes, 12 s per case; a panic is keyed by its source location" % (K, WIDTHS, TABS, MOD)
     found += binary_probe(rep, cases[:n_mut][:: max(1, n_mut // 60)])
     found += module_probe(rep)
     found += sub_site_phase(rep, found)
